@@ -1,34 +1,35 @@
 #!/bin/bash
 # usage: seeded.sh <seed id> <property> <worktree> <test packages...>
-# Confirms a sub-agent's change in its scratch worktree (existing tests pass with it, demo fails with it and passes
-# without it), stores it under /verif/seeded/<id>/, then runs the property's quick check against it in /repo (applied and
-# reverted straight afterwards).
+# Confirms a sub-agent's change in its scratch worktree (existing tests pass with it, the demonstration fails with it
+# and passes without it), stores it under /verif/seeded/<id>/ (patch.diff = git diff of the worktree, the untracked
+# *_test.go as demo_test.go.txt, confirm.log), then runs the property's quick check against the change through overlays
+# (selftest/seeded.sh; /repo itself is not touched) and stores check.log.
 set -u
 export GOFLAGS=-mod=mod GOPROXY=off GOSUMDB=off GOTOOLCHAIN=local
 id=$1; prop=$2; wt=$3; shift 3; pkgs="$@"
 out=/verif/seeded/$id; mkdir -p $out
 cd $wt || exit 2
-cp patch.diff $out/patch.diff
-cp demo_test.go.txt $out/demo_test.go.txt
 demo=$(git status --porcelain | grep '^??' | awk '{print $2}' | grep '_test.go$' | head -1)
 [ -z "$demo" ] && { echo "no demo test file found in worktree"; exit 2; }
-name=$(grep -o 'func Test[A-Za-z0-9_]*' $demo | head -1 | sed 's/func //')
+git diff > $out/patch.diff
+[ -s $out/patch.diff ] || { echo "worktree has no change"; exit 2; }
+cp $demo $out/demo_test.go.txt
+sed -i "1s#^#// demonstration of seeded change $id; copy to $demo\n#" $out/demo_test.go.txt
 dpkg=./$(dirname $demo)
 log=$out/confirm.log; : > $log
-echo "== existing tests with the change (demo moved aside)" >> $log
+echo "== existing tests with the change (demo moved aside): go test -vet=off -count=1 $pkgs" >> $log
 mv $demo /tmp/demo_$id.go.aside
 go build ./... >> $log 2>&1; go test -vet=off -count=1 $pkgs >> $log 2>&1; e1=$?
 mv /tmp/demo_$id.go.aside $demo
 echo "== demo with the change" >> $log
-go test -vet=off -count=1 -run "$name" $dpkg >> $log 2>&1; e2=$?
+go test -vet=off -count=1 -run "TestDemo" $dpkg >> $log 2>&1; e2=$?
 echo "== demo without the change" >> $log
-git diff > /tmp/seed_$id.diff; git apply -R /tmp/seed_$id.diff
-go test -vet=off -count=1 -run "$name" $dpkg >> $log 2>&1; e3=$?
-git apply /tmp/seed_$id.diff; rm -f /tmp/seed_$id.diff
+git apply -R $out/patch.diff
+go test -vet=off -count=1 -run "TestDemo" $dpkg >> $log 2>&1; e3=$?
+git apply $out/patch.diff
 echo "existing-tests-with-change exit=$e1 demo-with-change exit=$e2 demo-without-change exit=$e3" | tee -a $log
-# run the check against the change
-cd /repo && git apply $out/patch.diff || { echo "patch does not apply to /repo"; exit 2; }
-/verif/bin/gosymex check $prop --no-evidence > $out/check.log 2>&1; ce=$?
-git -C /repo checkout -- . 
+grep -E "^(--- FAIL|FAIL|ok)" $log | sort | uniq -c | head -20
+# run the check against the change (overlay)
+/verif/selftest/seeded.sh $id $prop > $out/check.log 2>&1; ce=$?
 echo "check exit=$ce: $(grep -E '^VIOLATION|INCONCLUSIVE|^OK' $out/check.log | head -2 | tr '\n' ' ')"
 grep -E "^  (assert|panic|deadlock|abort|race|leak)" $out/check.log | sort | uniq -c | head -5
